@@ -2856,7 +2856,10 @@ def cbcheck(
         # reorder mass and stiffness:
         m = cbreorder(m, bseto)
         k = cbreorder(k, bseto)
-        i = np.argsort(bseto)
+        # new row j of uset is the old row for DOF bseto[j]; old rows
+        # are in ascending DOF order, so that row is the rank of
+        # bseto[j] (a plain argsort is only right for swaps):
+        i = np.argsort(np.argsort(bseto))
         uset = uset.iloc[i]
 
         # define "new" order of b-set:
